@@ -140,15 +140,17 @@ Representable(c, t) ==
 \* sh: the operand contains the untyped constant left operand of a non-constant shift whose type is decided
 \*     by the context ("the type the constant would have if the shift were replaced by its left operand alone")
 \* cok: may be used in a comma-ok (two-value) context: map index, receive, type assertion
-R(t, cv) == [t |-> t, cv |-> cv, addr |-> FALSE, mapidx |-> FALSE, sh |-> FALSE, cok |-> FALSE, err |-> ""]
-ErrR(msg) == [t |-> TVoid, cv |-> NoCV, addr |-> FALSE, mapidx |-> FALSE, sh |-> FALSE, cok |-> FALSE, err |-> msg]
+\* shv: the value of that pending constant (it must be representable in the type the context finally gives it)
+R(t, cv) == [t |-> t, cv |-> cv, addr |-> FALSE, mapidx |-> FALSE, sh |-> FALSE, shv |-> NoCV, cok |-> FALSE, err |-> ""]
+ErrR(msg) == [t |-> TVoid, cv |-> NoCV, addr |-> FALSE, mapidx |-> FALSE, sh |-> FALSE, shv |-> NoCV, cok |-> FALSE, err |-> msg]
 IsConst(x) == x.cv.k \notin {"none"}
 
 \* an untyped operand takes its default type
 DefaultErr(x) ==
   IF IsNil(x.t) THEN "use of untyped nil"
   ELSE IF IsConst(x) THEN (IF x.cv.k = "undef" THEN "undef" ELSE IF Representable(x.cv, Default(x.t)) THEN "" ELSE "constant overflows default type")
-  ELSE IF x.sh /\ x.t # U("int") THEN "shifted operand must be integer" ELSE ""
+  ELSE IF x.sh /\ x.t # U("int") THEN "shifted operand must be integer"
+  ELSE IF x.sh /\ ~Representable(x.shv, TInt) THEN "shifted constant overflows int" ELSE ""
 
 \* implicit conversion of an untyped operand to the typed type T ("" = allowed)
 ConvU(x, T) ==
@@ -159,7 +161,8 @@ ConvU(x, T) ==
        ELSE IF x.t = U("bool") THEN (IF u[1] = "bool" THEN "" ELSE "untyped bool to non-bool")
        ELSE IF x.t = U("string") THEN (IF u[1] = "string" THEN "" ELSE "untyped string to non-string")
        ELSE IF ~IsNumeric(T) THEN "untyped number to non-numeric"
-       ELSE IF x.sh /\ ~IsInteger(T) THEN "shifted operand must be integer" ELSE ""
+       ELSE IF x.sh /\ ~IsInteger(T) THEN "shifted operand must be integer"
+       ELSE IF x.sh /\ ~Representable(x.shv, T) THEN "shifted constant not representable" ELSE ""
   ELSE IF u[1] = "iface" THEN
        IF IsNil(x.t) THEN "" ELSE IF T # TAny THEN "untyped value to non-empty interface" ELSE DefaultErr(x)
   ELSE IF IsNil(x.t) THEN "" ELSE "untyped value to composite type"
@@ -234,7 +237,9 @@ ShiftR(op, x, y) ==
                    (IF IsConst(y) THEN (IF y.cv.k = "num" /\ (IsHuge(y.cv) \/ y.cv.d = 1) /\ y.cv.n >= 0 THEN
                                              (IF IsHuge(y.cv) THEN "undef" ELSE "") ELSE "shift count not representable as uint")
                     ELSE IF IsNumeric(y.t) THEN "" ELSE "shift count must be integer")
-              ELSE IF IsInteger(y.t) THEN "" ELSE "shift count must be integer"
+              ELSE IF IsInteger(y.t) THEN ""
+              \* a typed constant of non-integer type: the Go spec rejects it, go/types (1.25) does not check it - not decided here
+              ELSE IF IsConst(y) THEN "undef" ELSE "shift count must be integer"
       xint == IsInteger(x.t) /\ ~IsUntyped(x.t)
       xuc == IsUntyped(x.t) /\ IsConst(x) /\ IsIntVal(x.cv)      \* untyped constant representable as an integer
       xhuge == IsUntyped(x.t) /\ IsConst(x) /\ IsHuge(x.cv)
@@ -247,7 +252,8 @@ ShiftR(op, x, y) ==
        IF v.k = "undef" THEN ErrR("undef")
        ELSE IF IsUntyped(x.t) THEN R(U("int"), v)
        ELSE IF Representable(v, x.t) THEN R(x.t, v) ELSE ErrR("constant shift overflows")
-  ELSE IF IsUntyped(x.t) THEN [R(x.t, NoCV) EXCEPT !.sh = TRUE]        \* type decided by the context
+  ELSE IF IsUntyped(x.t) THEN (IF IsConst(x) THEN [R(x.t, NoCV) EXCEPT !.sh = TRUE, !.shv = x.cv]       \* type decided by the context
+                               ELSE [R(x.t, NoCV) EXCEPT !.sh = x.sh, !.shv = x.shv])
   ELSE R(x.t, NoCV)
 
 BinaryR(op, x0, y0) ==
@@ -266,7 +272,8 @@ BinaryR(op, x0, y0) ==
             IF v.k = "undef" THEN ErrR("undef")
             ELSE IF IsUntyped(x.t) THEN R(x.t, v)
             ELSE IF Representable(v, x.t) THEN R(x.t, v) ELSE ErrR("constant overflows type")
-       ELSE [R(x.t, NoCV) EXCEPT !.sh = IsUntyped(x.t) /\ (x.sh \/ y.sh)]
+       ELSE IF IsUntyped(x.t) /\ x.sh /\ y.sh THEN ErrR("undef")          \* two pending shift constants: not modelled
+       ELSE [R(x.t, NoCV) EXCEPT !.sh = IsUntyped(x.t) /\ (x.sh \/ y.sh), !.shv = IF x.sh THEN x.shv ELSE y.shv]
 
 UnaryR(op, x) ==
   IF x.err # "" THEN x
@@ -279,7 +286,7 @@ UnaryR(op, x) ==
                         ELSE IF IsConst(x) THEN R(x.t, Bool(x.cv.n = 0)) ELSE R(x.t, NoCV)
          [] op \in {"+", "-", "^"} ->
               IF (op = "^" /\ ~IsInteger(x.t)) \/ ~IsNumeric(x.t) THEN ErrR("unary operator not defined")
-              ELSE IF ~IsConst(x) THEN [R(x.t, NoCV) EXCEPT !.sh = x.sh]
+              ELSE IF ~IsConst(x) THEN [R(x.t, NoCV) EXCEPT !.sh = x.sh, !.shv = x.shv]
               ELSE IF x.cv.k = "undef" THEN ErrR("undef")
               ELSE LET v == IF op = "+" THEN x.cv
                             ELSE IF op = "-" THEN (IF IsHuge(x.cv) THEN Huge(-x.cv.n) ELSE Mk(-x.cv.n, x.cv.d))
@@ -295,7 +302,7 @@ IndexErr(i) ==
   IF i.err # "" THEN i.err
   ELSE IF ~IsValueT(i.t) THEN "multiple-value or no value as index"
   ELSE IF IsUntyped(i.t) /\ ConvU(i, TInt) # "" THEN ConvU(i, TInt)
-  ELSE IF ~IsInteger(i.t) THEN "index must be integer"
+  ELSE IF ~IsUntyped(i.t) /\ ~IsInteger(i.t) THEN "index must be integer"
   ELSE IF IsConst(i) /\ i.cv.k = "num" /\ i.cv.n < 0 THEN "index must not be negative" ELSE ""
 
 \* T(x)  (Go spec, Conversions)
@@ -321,11 +328,17 @@ ConvR(T, x) ==
 \* env: [vars: sequence of [name, t, kind ("var" "const" "func" "pkg"), used, depth, cv], depth, res (result types of the
 \*       enclosing function), err]
 Entry(name, t, kind, used, depth, cv) == [name |-> name, t |-> t, kind |-> kind, used |-> used, depth |-> depth, cv |-> cv]
-MaxOf(S) == CHOOSE m \in S : \A j \in S : j <= m
-LookupIdx(env, name) == LET S == {j \in 1..Len(env.vars) : env.vars[j].name = name} IN IF S = {} THEN 0 ELSE MaxOf(S)
-MarkUsed(env, names) ==
-  [env EXCEPT !.vars = [j \in 1..Len(env.vars) |->
-       IF env.vars[j].name \in names /\ j = LookupIdx(env, env.vars[j].name) THEN [env.vars[j] EXCEPT !.used = TRUE] ELSE env.vars[j]]]
+RECURSIVE FindLast(_, _, _), MarkAll(_, _)
+FindLast(vars, name, j) == IF j = 0 THEN 0 ELSE IF vars[j].name = name THEN j ELSE FindLast(vars, name, j - 1)
+\* index of the innermost declaration of name (0: none)
+LookupIdx(env, name) == FindLast(env.vars, name, Len(env.vars))
+\* every name of the set resolves to its innermost declaration, which becomes "used"
+MarkAll(env, names) ==
+  IF names = {} THEN env
+  ELSE LET x == CHOOSE x \in names : TRUE
+           j == LookupIdx(env, x) IN
+       MarkAll(IF j = 0 \/ env.vars[j].used THEN env ELSE [env EXCEPT !.vars[j].used = TRUE], names \ {x})
+MarkUsed(env, names) == MarkAll(env, names)
 Fail(env, msg) == IF env.err # "" THEN env ELSE [env EXCEPT !.err = msg]
 Push(env) == [env EXCEPT !.depth = @ + 1]
 \* leaving a block: "implementation restriction: a compiler may make it illegal to declare a variable inside a
@@ -772,7 +785,9 @@ PreludeLocals == << <<"vi", "int">>, <<"vi8", "int8">>, <<"vu8", "uint8">>, <<"v
   <<"vn", "N">>, <<"vp", "*int">>, <<"vsl", "[]int">>, <<"vm", "map[string]int">>, <<"vfn", "func(int) int">>, <<"va", "any">>,
   <<"ve", "error">>, <<"vch", "chan int">>, <<"vns", "NS">> >>
 
-PreludeLocalEntries == [j \in 1..Len(PreludeLocals) |-> Entry(PreludeLocals[j][1], TY(PreludeLocals[j][2]), "var", TRUE, 1, NoCV)]
+PLE(nm, t) == Entry(nm, t, "var", TRUE, 1, NoCV)
+PreludeLocalEntries == <<PLE("vi", TInt), PLE("vi8", TInt8), PLE("vu8", TUint8), PLE("vf", TFloat), PLE("vs", TString), PLE("vb", TBool),
+  PLE("vn", TN), PLE("vp", TPtr), PLE("vsl", TSlice), PLE("vm", TMap), PLE("vfn", TFunc), PLE("va", TAny), PLE("ve", TError), PLE("vch", TChan), PLE("vns", TNS)>>
 RECURSIVE DeclImports(_, _, _), DeclTops(_, _, _), CheckTopBodies(_, _, _)
 DeclImports(env, imps, j) ==
   IF j > Len(imps) \/ env.err # "" THEN env
